@@ -21,7 +21,7 @@ func runE2E(c e2e.Case) (ev.Info, error) {
 	}
 	tr = tr.FirstRun()
 	if len(tr.Problems) > 0 {
-		return info, fmt.Errorf("%v", tr.Problems)
+		return info, fmt.Errorf("TIMING: %v", tr.Problems)
 	}
 	// --- A. onStartup hooks: exactly once each, in (order, name) order, failed attempts directly before, before anything else
 	type sh struct {
